@@ -52,9 +52,9 @@ MANIFEST_ENTRY = {
         "Trusted: Lean kernel (+propext, Classical.choice, Quot.sound), correspondence harness and compiled "
         "driver, integer reading of the float steps (exact for elapsed < 2^33 s, generators stay inside), "
         "Python datetime arithmetic as calendar reference, shims used to boot the app. Clock >= 1970-01-01 and "
-        "tz-aware UTC; for start=epoch the one-minute age needs now >= 1970-01-01T00:01:00Z; publishTime "
-        "monotonicity is for an unchanged resolved availabilityStartTime (across a symbolic roll-over it can "
-        "step back by < one period: proved bound + Lean witness)."),
+        "tz-aware UTC; for start=epoch the one-minute age needs now >= 1970-01-01T00:01:00Z (open ledger "
+        "entry); publishTime monotonicity is proved for an unchanged resolved availabilityStartTime, across a "
+        "symbolic roll-over it steps back by < one period (proved bound, Lean witness, open ledger entry)."),
     "technique": "Lean 4 proof (omega over µs integers, structural calendar walk) + model/implementation correspondence",
 }
 PROP_FILES = ["DashLive/Props/C08.lean"]
@@ -71,7 +71,7 @@ ASSUMPTIONS = [
     "explicit start instants are <= now (C08's quantifier); starts in the future are compared model-vs-code only",
     "elapsed time < 2^33 s (~272 years) so that timedelta.total_seconds() separates microseconds from whole seconds (float exactness bound of the integer model); timescale >= 1 and 1 <= segment_duration < 2^51",
     "start=epoch is 'at least one minute old' only for clocks >= 1970-01-01T00:01:00Z (theorem symbolic_age_epoch_partial; unsatisfiable otherwise for any implementation; the excluded point is the open ledger entry epoch-start-young-before-1970-01-01T00:01Z, replayed every run; generators keep start=epoch inside the hypothesis)",
-    "'publishTime never decreases' is read for requests that resolve to the same availabilityStartTime (a changed availabilityStartTime is a new presentation); across a roll-over of today/month/year it may step back by less than one period (theorem publish_mono_across_restart, witness in Props/C08.lean)",
+    "'publishTime never decreases as now advances' is checked for every pair of requests; it does not hold across a roll-over of today/month/year (the two requests resolve different availabilityStartTime values): open ledger entry publish-steps-back-across-symbolic-rollover, replayed every run, step-back < one period (theorem publish_mono_across_restart); generators draw such pairs and the oracle failures of exactly that class are matched to the entry, everything else is a violation",
     "naive explicit start strings (no Z/offset) are not instants; they make the handler fail with a TypeError (HTTP 500) - a C16 matter, not generated here",
 ]
 
@@ -375,15 +375,48 @@ def oracle(c, results: list[dict], http: bool = False) -> list[dict]:
             ri, rj = results[i], results[j]
             if ri["now"] > rj["now"]:
                 continue
-            if (ri["ast"] == rj["ast"] and ri["mup"] is not None and rj["mup"] is not None
+            if (ri["mup"] is not None and rj["mup"] is not None
                     and ri.get("pub") is not None and rj.get("pub") is not None and ri["pub"] > rj["pub"]):
-                fails.append({"clause": "publishTime never decreases as now advances", "index": [i, j],
-                              "now": [ri["now"], rj["now"]], "pub": [ri["pub"], rj["pub"]]})
+                fails.append({"clause": MONO_CLAUSE, "index": [i, j],
+                              "now": [ri["now"], rj["now"]], "pub": [ri["pub"], rj["pub"]],
+                              "ast": [ri["ast"], rj["ast"]], "mup": [str(ri["mup"]), str(rj["mup"])]})
             if sym and start != "now" and ri["now"] // DAY == rj["now"] // DAY and \
                     ri["now"] % DAY >= MINUTE and rj["now"] % DAY >= MINUTE and ri["ast"] != rj["ast"]:
                 fails.append({"clause": "symbolic start resolves to one instant within a UTC day after its first minute",
                               "index": [i, j], "now": [ri["now"], rj["now"]], "ast": [ri["ast"], rj["ast"]]})
     return fails
+
+
+MONO_CLAUSE = "publishTime never decreases as now advances"
+ROLLOVER_CLASS = "publish-steps-back-across-symbolic-rollover"
+
+
+def is_rollover(f: dict) -> bool:
+    """the one known deviation (open ledger entry of class ROLLOVER_CLASS): publishTime stepped back between
+    two requests that resolved *different* availabilityStartTime values, by less than one period of the later
+    request (the bound proved as `publish_mono_across_restart`).  Anything else is not of this class."""
+    if f.get("clause") != MONO_CLAUSE or "ast" not in f or "mup" not in f:
+        return False
+    a, p, m = f["ast"], f["pub"], f["mup"]
+    try:
+        period = Fraction(m[1]) * US
+    except (ValueError, ZeroDivisionError):
+        return False
+    return a[0] != a[1] and 0 < p[0] - p[1] < period
+
+
+def unlisted(fails: list[dict]) -> list[dict]:
+    return [f for f in fails if not is_rollover(f)]
+
+
+def failure_record(via: str, case_h: dict, fails: list[dict], **kw) -> dict:
+    """what goes into Channel.oracle_failures: failures outside the known class first; a record consisting
+    only of roll-over step-backs is tagged with its class (matched against the ledger by matches_finding)"""
+    un = unlisted(fails)
+    rec = {"via": via, "case": case_h, "failures": (un[:3] if un else fails), **kw}
+    if not un:
+        rec["class"] = ROLLOVER_CLASS
+    return rec
 
 
 def human(c) -> dict:
@@ -649,9 +682,12 @@ def evaluate_direct(cases, ch: Channel):
         if not c.get("future"):
             fails = oracle(c, results)
             if fails:
-                mini = shrink(c, lambda cc: bool(direct_fails(cc)))
-                ch.oracle_failures.append({"via": "direct", "case": human(mini),
-                                           "failures": direct_fails(mini)[:3] or fails[:3]})
+                if any(is_rollover(f) for f in fails):
+                    ch.count("hit:publish_step_back_across_rollover(known finding)")
+                pred = (lambda cc: bool(unlisted(direct_fails(cc)))) if unlisted(fails) else \
+                    (lambda cc: bool(direct_fails(cc)))
+                mini = shrink(c, pred)
+                ch.oracle_failures.append(failure_record("direct", human(mini), direct_fails(mini) or fails))
         ch.sample({"case": human(c), "impl": impl[:2]}, limit=3)
 
 
@@ -876,9 +912,11 @@ def evaluate_http(http: Http, cases, ch: Channel):
                                      "model": mo, "impl": impl})
         fails = http_fails(http, c, res)
         if fails:
-            mini = shrink_http(http, c)
-            ch.oracle_failures.append({"via": "http", "case": human_http(mini), "url": http.url(mini),
-                                       "failures": http_fails(http, mini)[:3] or fails[:3]})
+            if any(is_rollover(f) for f in fails):
+                ch.count("hit:publish_step_back_across_rollover(known finding)")
+            mini = shrink_http(http, c, only_unlisted=bool(unlisted(fails)))
+            ch.oracle_failures.append(failure_record("http", human_http(mini), http_fails(http, mini) or fails,
+                                                     url=http.url(mini)))
         ch.sample({"url": http.url(c), "nows": [iso(x) for x in c["nows"]], "impl": impl[:2]}, limit=3)
 
 
@@ -888,11 +926,12 @@ def human_http(c) -> dict:
     return d
 
 
-def shrink_http(http: Http, c):
+def shrink_http(http: Http, c, only_unlisted: bool = False):
     def f(cc):
         if cc["stream"] == "tears":
             http.set_ref(cc["sd"], cc["ts"])
-        return bool(http_fails(http, cc))
+        fl = http_fails(http, cc)
+        return bool(unlisted(fl) if only_unlisted else fl)
     best = c
     import itertools
     n = len(c["nows"])
@@ -942,12 +981,40 @@ def fixed_http_cases(http: Http):
     return out
 
 
+def rollover_http_cases(ctx, http: Http):
+    """sequences of real manifests across midnight / the first minute / month and year boundaries, for every
+    template that renders publishTime: publishTime monotonicity and start stability on what is served"""
+    rng = ctx.rng("rollover-http")
+    dates = [(2020, 1, 1), (2020, 1, 2), (2024, 2, 29), (2024, 3, 1), (2024, 3, 2), (2023, 7, 1), (2100, 3, 1)]
+    n_extra = ctx.scale(3, 60)
+    for _ in range(n_extra):
+        y = rng.randrange(1971, 2200)
+        m = rng.randrange(1, 13)
+        dates.append((y, m, rng.choice([1, 2, _cal.monthrange(y, m)[1], rng.randrange(1, 29)])))
+    out = []
+    names = sorted(http.manifests)
+    for k, (y, m, d) in enumerate(dates):
+        t = (datetime.date(y, m, d).toordinal() - EPOCH_ORD) * DAY
+        seq = [t - 2 * US, t - 1, t, t + 30 * US + 500_000, t + 59 * US, t + MINUTE - 1, t + MINUTE,
+               t + 61 * US, t + 67 * US]
+        for start in ("today", "month", "year", "epoch", "now"):
+            picks = names if ctx.thorough or k < 2 else [names[(k + i) % len(names)] for i in range(2)]
+            for name in picks:
+                feats = http.manifests[name]
+                mup = rng.choice([7, 7, 3, 61]) if "minimumUpdatePeriod" in feats else "absent"
+                out.append({"manifest": name, "stream": "bbb", "sd": http.bbb_ref[0], "ts": http.bbb_ref[1],
+                            "nows": seq, "start": start, "depth": rng.choice(["absent", 30, 60]), "mup": mup})
+    return out
+
+
 def ch_manifest(ctx) -> Channel:
     ch = Channel("manifest", rule=(
         "live manifests of every live-capable template served by the booted application (fixture streams bbb and "
         "tears, tears with synthetic timing references) under a controlled clock, URL-encoded start/depth/mup: "
         "MPD@availabilityStartTime (instant and offset), @publishTime, @timeShiftBufferDepth, "
-        "@minimumUpdatePeriod vs the model; non-trivial = explicit start given in the URL or a stream at most "
+        "@minimumUpdatePeriod vs the model, including 9-request sequences across midnight / 00:01:00 / month and year "
+        "boundaries for every start kind (publishTime monotonicity and start stability on served manifests); "
+        "non-trivial = explicit start given in the URL or a stream at most "
         "one day + one minute old (a back-off/clamp region); distinct by manifest, stream and case"))
     try:
         http = get_http()
@@ -955,7 +1022,7 @@ def ch_manifest(ctx) -> Channel:
         ch.errors.append(f"app boot: {type(e).__name__}: {e}")
         return ch
     rng = ctx.rng("manifest")
-    cases = fixed_http_cases(http) + [gen_http_case(rng, http) for _ in range(ctx.scale(600, 8000))]
+    cases = fixed_http_cases(http) + rollover_http_cases(ctx, http) + [gen_http_case(rng, http) for _ in range(ctx.scale(600, 8000))]
     try:
         evaluate_http(http, cases, ch)
     finally:
@@ -984,10 +1051,10 @@ def search(ctx, disagreements):
                 return {"via": "mupdefault", "sd": d["sd"], "ts": d["ts"], "impl": str(got),
                         "clause": "minimumUpdatePeriod is a positive period"}
     for c in seeds + boundary_cases(ctx) + [gen_case(rng, future_ok=False) for _ in range(ctx.scale(20000, 60000))]:
-        f = direct_fails(c)
+        f = unlisted(direct_fails(c))        # roll-over step-backs are the open ledger entry, replayed separately
         if f:
-            mini = shrink(c, lambda cc: bool(direct_fails(cc)))
-            return {"via": "direct", "case": human(mini), "failures": direct_fails(mini)[:3]}
+            mini = shrink(c, lambda cc: bool(unlisted(direct_fails(cc))))
+            return failure_record("direct", human(mini), direct_fails(mini))
     for sd, ts in mup_cases(ctx):
         got = real_default_mup(sd, ts)
         if not (isinstance(got, int) and got >= 1):
@@ -1003,11 +1070,10 @@ def search(ctx, disagreements):
         for c in hseeds + fixed_http_cases(http) + [gen_http_case(rng, http) for _ in range(ctx.scale(1500, 6000))]:
             if c["stream"] == "tears":
                 http.set_ref(c["sd"], c["ts"])
-            f = http_fails(http, c)
+            f = unlisted(http_fails(http, c))
             if f:
-                mini = shrink_http(http, c)
-                return {"via": "http", "case": human_http(mini), "url": http.url(mini),
-                        "failures": http_fails(http, mini)[:3]}
+                mini = shrink_http(http, c, only_unlisted=True)
+                return failure_record("http", human_http(mini), http_fails(http, mini), url=http.url(mini))
     finally:
         http.restore()
     return None
@@ -1038,11 +1104,18 @@ def replay(ctx, payload):
     if "case" not in f and f.get("via") != "mupdefault":
         return {"fails": False, "note": "replay names a broken obligation, no input", "payload": payload.get("broken")}
     fails = _run_failure(f)
-    return {"fails": bool(fails), "failures": fails[:5], "input": f.get("case") or {"sd": f.get("sd"), "ts": f.get("ts")}}
+    # a replay of the known roll-over class fails when the step-back is still there; any other replay fails
+    # when something outside that class is still wrong
+    rel = fails if f.get("class") == ROLLOVER_CLASS else unlisted(fails)
+    return {"fails": bool(rel), "failures": rel[:5], "known_rollover_step_backs": len(fails) - len(unlisted(fails)),
+            "input": f.get("case") or {"sd": f.get("sd"), "ts": f.get("ts")}}
 
 
 def replay_finding(ctx, finding):
-    return bool(_run_failure(finding["witness"]))
+    fails = _run_failure(finding["witness"])
+    if (finding.get("match") or {}).get("class") == ROLLOVER_CLASS:
+        return any(is_rollover(f) for f in fails)      # the step-back itself, inside the proved bound
+    return bool(fails)
 
 
 def matches_finding(finding, failure):
@@ -1051,6 +1124,11 @@ def matches_finding(finding, failure):
     m = finding.get("match")
     if not m:
         return False
+    if m.get("class") == ROLLOVER_CLASS:
+        # exactly that class: every failure of the record is a publishTime step-back between two clocks whose
+        # resolved availabilityStartTime differ, smaller than one period
+        fl = failure.get("failures") or []
+        return failure.get("class") == ROLLOVER_CLASS and bool(fl) and all(is_rollover(x) for x in fl)
     clauses = {x.get("clause") for x in failure.get("failures", [])} | {failure.get("clause")}
     if m.get("clause") not in clauses:
         return False
